@@ -204,13 +204,14 @@ func (s *progState) step(tx *Tx, w *refModel) {
 		s.checkOwnership(w, p.ID())
 		w.pages = append(w.pages, refPage{id: p.ID(), isNew: true, raw: true})
 	case opAllocRawN:
-		verifLog("allocN(2) (no write)")
-		ps, err := tx.AllocN(2)
+		n := 2 + verifChoose(2)
+		verifLogU64("allocN (no write)", uint64(n))
+		ps, err := tx.AllocN(n)
 		if err != nil {
 			verifAssert(isKind(err, OutOfMemory), "AllocN fails only with OutOfMemory")
 			return
 		}
-		verifAssert(len(ps) == 2 && ps[0].ID() != ps[1].ID(), "AllocN(2) returns 2 distinct pages")
+		verifAssert(len(ps) == n && ps[0].ID() != ps[1].ID(), "AllocN(n) returns n distinct pages")
 		for _, p := range ps {
 			s.checkOwnership(w, p.ID())
 			w.pages = append(w.pages, refPage{id: p.ID(), isNew: true, raw: true})
